@@ -39,6 +39,7 @@ def initial_classes(kind, R, C):
         flat = [float(i % 10) + 0.5 * (i % 2) for i in range(n)]
         out += [
             ("flat", flat, [flat[r * C : (r + 1) * C] for r in range(R)]),
+            ("flat-tuple", ("tuple", flat), [flat[r * C : (r + 1) * C] for r in range(R)]),
             ("flat-short", flat[:-1] if n > 1 else [], None),
             ("flat-long", flat + [1.0], None),
             ("2d", [flat[r * C : (r + 1) * C] for r in range(R)], [flat[r * C : (r + 1) * C] for r in range(R)]),
@@ -52,6 +53,8 @@ def initial_classes(kind, R, C):
         per = [float(c + 1) if c % 2 == 0 else 0.0 for c in range(C)]
         out += [
             ("percol", per, [per]),
+            ("percol-tuple", ("tuple", per), [per]),
+            ("percol-range", ("range", C), [[float(c) for c in range(C)]]),
             ("percol-short", per[:-1], None),
             ("percol-one", [5.0], None if C > 1 else [[5.0]]),
             ("percol-one-np2d", ("np", [[5.0]]) if C > 1 else [5.0], None if C > 1 else [[5.0]]),
@@ -221,7 +224,7 @@ class Harness(cm.BaseB):
         mn, mx = LIMITS_C[case["lim"]]
         lab, init, expect = initial_classes(kind, R, C)[case["init"]]
         if isinstance(init, tuple):
-            init = np.array(init[1])
+            init = np.array(init[1]) if init[0] == "np" else tuple(init[1]) if init[0] == "tuple" else range(init[1])
         lim_ok = mn is not None and mx is not None and mn == mn and mx == mx and 0 <= mn < mx
         # initial volumes must also fit below this max
         if expect is not None and lim_ok and any(x > mx for row in expect for x in row):
